@@ -37,16 +37,17 @@ cp "$DEMO" examples/seeded_demo.rs
 if cargo run -q --offline --example seeded_demo >$OUT/demo$N.log 2>&1; then res "$R" demo_fails_patched false; else res "$R" demo_fails_patched true; fi
 rm -f examples/seeded_demo.rs
 # harness copy against the patched worktree
-mkdir -p "$MH"; rsync -a --delete --exclude target /tmp/harness_baseline/harness/ "$MH/harness/"
+mkdir -p "$MH"; rsync -a --delete --exclude target /verif/harness/ "$MH/harness/"
 sed -i "s#reval = { path = \"/repo\" }#reval = { path = \"$WT\" }#" "$MH/harness/Cargo.toml"
-cp /tmp/harness_baseline/KNOWN_FINDINGS.txt "$MH/"; rsync -a /tmp/harness_baseline/regressions "$MH/"
+cp /verif/KNOWN_FINDINGS.txt "$MH/"; rsync -a /verif/regressions "$MH/"
 TGT="${SEEDCHECK_TARGET:-/tmp/mh/target}"
 export CARGO_TARGET_DIR="$TGT"
+(cd "$MH/harness" && cargo build -q --offline --bin rvv_deep >"$OUT/hbuilddev$N.log" 2>&1)
 if ! (cd "$MH/harness" && cargo build -q --release --offline --bins >"$OUT/hbuild$N.log" 2>&1); then
   if grep -Eq 'E0277|cannot be (sent|shared) between threads' "$OUT/hbuild$N.log"; then res "$R" harness_build "send-sync-compile-error"; else res "$R" harness_build "failed"; fi
 fi
 caught=""
-for P in C01 C02 C03 C04 C05 C06 C07 C08 C09 C10 C11 C12 C13 C14 C15 C16 C17 C18 C19; do
+for P in ${SEEDCHECK_ONLY:-C01 C02 C03 C04 C05 C06 C07 C08 C09 C10 C11 C12 C13 C14 C15 C16 C17 C18 C19}; do
   BIN=rvv; [ $P = C18 ] && BIN=rvv_c18
   if [ $P = C18 ] && grep -Eq 'E0277|cannot be (sent|shared) between threads' "$OUT/hbuild$N.log" 2>/dev/null; then caught="$caught $P(static)"; continue; fi
   [ -x "$TGT/release/$BIN" ] || continue
